@@ -60,3 +60,17 @@ Theorem C06_writer_output_accepted : forall cfg st m now f p k rst,
   check_key k rst f = (None, mkRstate (window_update (r_cur_ts rst) (u48 now))).
 Proof. exact writer_output_accepted. Qed.
 Print Assumptions C06_writer_output_accepted.
+
+(* ---- tie by translation (gen/SrcFrame.v, gen/SrcStreamwriter.v regenerated from the source on
+   every run) ---- the signature clock counts 10 microsecond ticks since 1st January 2015 in both
+   writers, and the reader's window is the model's *)
+From Coq Require Import ZArith List.
+Import ListNotations.
+From GM Require Import SrcFrame SrcStreamwriter SrcFrameTie.
+Theorem C06_source_signature_constants :
+  (v_frame_signatureReferenceDate_args = [2015; 1; 1; 0; 0; 0; 0] /\
+   v_streamwriter_signatureReferenceDate_args = [2015; 1; 1; 0; 0; 0; 0] /\
+   k_frame_Writer_writeFrameAndFill = [0; 0; 1; 10000] /\ k_streamwriter_Writer_writeInner = [0; 0; 1; 10000] /\
+   k_frame_Reader_Read = [254; 253; 0; Z.of_N Reader.window])%Z.
+Proof. exact src_frame_signing. Qed.
+Print Assumptions C06_source_signature_constants.
